@@ -335,6 +335,54 @@ def histories(c, tier, seed):
     c.correspondence_py("extract", cases, outs, orc)
 
 
+def link_root_histories(c, rnd, n):
+    """The tree argument itself is (or comes with) a symbolic link to a directory: `create -r L t` with L -> t, `create -r L`
+    with L -> t, without --follow-links.  The link is an item like any other link (fix 559daabb: the walker used to descend
+    into a link given as an argument, storing L and L/...; extraction of that archive failed).  Implementation-side oracle:
+    extraction succeeds, out/L is a link with the target given, out/t equals t."""
+    bad = []
+    with cli.Sandbox("C02l") as sb:
+        for i in range(n):
+            d = sb.path("l%d" % i)
+            os.makedirs(os.path.join(d, "tmp"))
+            gen_tree(rnd, os.path.join(d, "t"), False)
+            lname = rnd.choice(["L", "z link", "-l", "a"])
+            os.symlink("t", os.path.join(d, lname))
+            opts = rnd.choice([[], ["--keep-dir"], ["--solid"], ["--keep-dir", "--solid", "--store"]])
+            roots = rnd.choice([["--", lname, "t"], ["--", "t", lname], ["--", lname], ["--", "./" + lname, "t"]])
+            cmd = "create a.pna -r %s %s | extract" % (" ".join(opts), " ".join(roots))
+            r1 = cli.run_pna(["--quiet", "create", "a.pna", "-r"] + opts + roots, cwd=d, timeout=120)
+            r2 = cli.run_pna(["--quiet", "extract", "a.pna", "--out-dir", "out"], cwd=d, timeout=120) if r1["rc"] == 0 else None
+            c.hist["link given as an argument"] = c.hist.get("link given as an argument", 0) + 1
+            c.cov["evaluations"] += 1
+            msgs = []
+            if r1["rc"] != 0:
+                msgs.append("create fails (rc %s): %s" % (r1["rc"], r1["err"][-200:].decode("utf-8", "replace")))
+            elif r2["rc"] != 0:
+                msgs.append("extract fails (rc %s): %s" % (r2["rc"], r2["err"][-200:].decode("utf-8", "replace")))
+            else:
+                lp = os.path.join(d, "out", lname)
+                if not os.path.islink(lp) or os.readlink(lp) != "t":
+                    msgs.append("the link %r is not restored as a link to 't' (%s)" % (lname, "missing" if not os.path.lexists(lp) else "a directory" if os.path.isdir(lp) else "other"))
+                if "t" in roots:
+                    src, got = snap(os.path.join(d, "t"), "t"), snap(os.path.join(d, "out", "t"), "t")
+                    kd = "--keep-dir" in opts
+                    for p_, (k, data, mode, mtime, xs) in src.items():
+                        if k == "d" and not kd:
+                            continue
+                        if p_ not in got or got[p_][0] != k or (k == "f" and got[p_][1] != data):
+                            msgs.append("%r is missing or differs after extraction" % p_)
+                            break
+                    extra = [q for q in got if q not in src]
+                    if extra:
+                        msgs.append("%r appears after extraction but is not in the source tree" % extra[0])
+            if msgs:
+                bad.append("%s: %s" % (cmd, "; ".join(msgs[:2])))
+            shutil.rmtree(d, ignore_errors=True)
+    for b in bad[:3]:
+        c.violations.append(("oracle", "C02 with a symbolic link as tree argument: " + b, b, True))
+
+
 UNPRIV = ["setpriv", "--reuid=65534", "--regid=65534", "--clear-groups"]
 
 
@@ -445,5 +493,6 @@ def run(tier, seed, replay=None):
     c.proofs()
     histories(c, tier, seed)
     unprivileged_histories(c, random.Random(seed + 77), 6 if tier == "quick" else 60)
+    link_root_histories(c, random.Random(seed + 78), 8 if tier == "quick" else 80)
     return c.finish("proof", ["Coq 8.16.1 kernel and VM", "ExtrOcamlBasic extraction + modelrun/driver.ml", "harness dump",
                               "vlib/cli.py snapshots", "Model/Fs.v as a description of the file system calls"])
